@@ -45,8 +45,7 @@ func newTkEnv(symbolicParams bool) *tkEnv {
 	e.bank.modules[types.ModuleName] = []string{authtypes.Minter, authtypes.Burner}
 	e.bank.modules[tkFeeCollector] = nil
 	e.owner, e.stranger, e.other = vAddr(1), vAddr(2), vAddr(3)
-	e.k = Keeper{storeKey: e.key, cdc: e.cdc, bankKeeper: tkBank{e.bank, map[string]banktypes.Metadata{}}, accountKeeper: tkAccount{e.acc},
-		blockedAddrs: e.bank.blocked, feeCollectorName: tkFeeCollector, authority: vAddr(9).String(), registry: make(v1.SwapRegistry)}
+	e.k = NewKeeper(e.cdc, e.key, tkBank{e.bank, map[string]banktypes.Metadata{}}, tkAccount{e.acc}, nil, nil, tkFeeCollector, vAddr(9).String()) // the app's own constructor
 	p := v1.DefaultParams()
 	if symbolicParams {
 		e18 := verifPow10(18)
